@@ -11,12 +11,14 @@ package logstore
 import (
 	"fmt"
 	"math"
+	"os"
 	"runtime"
 	"runtime/debug"
 	"sort"
 	"strconv"
 	"strings"
 	"sync"
+	"time"
 
 	"github.com/lni/dragonboat/v4/internal/tan"
 	"github.com/lni/dragonboat/v4/raftio"
@@ -79,6 +81,7 @@ type harness struct {
 	firedAt   string
 	jobs      []obsJob
 	faults    int
+	kvs       []*kvStore // every Pebble kv store opened and not yet seen closing
 
 	// probes
 	rollovers, indexBlocks, reopens, acked, entriesSaved int
@@ -256,7 +259,7 @@ func (h *harness) openStep() error {
 	if h.mode == "kverr" {
 		g = h
 	}
-	db, err := openStore(h.kind, &zfs{v: h.view}, h.memtable, g)
+	db, err := openStore(h.kind, &zfs{v: h.view}, h.memtable, g, func(s *kvStore) { h.kvs = append(h.kvs, s) })
 	if err != nil {
 		return err
 	}
@@ -280,11 +283,34 @@ func (h *harness) retire() {
 		db := h.db
 		h.db = nil
 		func() {
-			defer func() { _ = recover() }()
-			_ = db.Close()
+			defer func() {
+				if r := recover(); r != nil {
+					h.ctx.Count("ev.zombie_close_panic", 1)
+					h.ctx.Tracef("zombie close panicked: %v", r)
+				}
+			}()
+			if err := db.Close(); err != nil {
+				h.ctx.Tracef("zombie close: %v", err)
+			}
 		}()
 	}
 	h.jobs = nil
+	h.closeStrays()
+}
+
+// closeStrays closes Pebble instances that ShardedDB left open on an error
+// path (see kvFactory).
+func (h *harness) closeStrays() {
+	for _, s := range h.kvs {
+		if !s.closed {
+			h.ctx.Count("ev.stray_kv_closed", 1)
+			func() {
+				defer func() { _ = recover() }()
+				_ = s.Close()
+			}()
+		}
+	}
+	h.kvs = nil
 }
 
 // ---- windows ----
@@ -773,8 +799,14 @@ func (h *harness) recoverAndVerify(cands map[raftio.NodeInfo][]*RefReplica, touc
 	defer func() { h.chk.lenientCommit = false }()
 	for _, p := range h.pairs {
 		list := cands[p]
+		undone := false
 		if len(list) == 0 {
-			list = []*RefReplica{h.model.Get(p)}
+			cur := h.model.Get(p)
+			list = []*RefReplica{cur}
+			if cur.Removed && cur.PreRemoval != nil {
+				list = mixes(cur.PreRemoval, cur)
+				undone = true
+			}
 		}
 		var matched *RefReplica
 		var fails []string
@@ -794,6 +826,9 @@ func (h *harness) recoverAndVerify(cands map[raftio.NodeInfo][]*RefReplica, touc
 				}
 				if i > 1 {
 					h.ctx.Count("probe.recovered_mixed", 1)
+				}
+				if undone && i > 0 {
+					h.ctx.Count("probe.removal_undone_by_crash", 1)
 				}
 				break
 			}
@@ -858,8 +893,10 @@ func (h *harness) queries() {
 	s := h.wsrc
 	for _, p := range h.pairs {
 		ref := h.model.Get(p)
+		if !h.chk.snapshot(ref, h.c09) {
+			return
+		}
 		h.chk.readState(ref, h.c09)
-		h.chk.snapshot(ref, h.c09)
 		n := 1 + s.Intn(3)
 		for i := 0; i < n; i++ {
 			lo := uint64(1)
@@ -934,6 +971,16 @@ func atoi(s string, def int) int {
 
 // Run executes one simulated run.
 func Run(ctx *runner.Ctx) *runner.Result {
+	if os.Getenv("LOGSTORE_DEBUG_GOROUTINES") != "" {
+		time.Sleep(20 * time.Millisecond)
+		fmt.Fprintf(os.Stderr, "goroutines at start=%d\n", runtime.NumGoroutine())
+		if runtime.NumGoroutine() > 4 && os.Getenv("LOGSTORE_DEBUG_GOROUTINES") == "2" {
+			buf := make([]byte, 1<<20)
+			n := runtime.Stack(buf, true)
+			fmt.Fprintf(os.Stderr, "%s\n", buf[:n])
+			os.Exit(3)
+		}
+	}
 	kind, ok := parseKind(ctx.Param("store", "tan"))
 	if !ok {
 		panic("logstore: unknown store " + ctx.Param("store", ""))
